@@ -127,13 +127,15 @@ def correspond(ctx, name, lines, cmd, model_lines=None):
 
 
 # ------------------------------------------------------------------ builds
-def compile_drv(ctx, b, out, lvl=1, opt="-O1", variant=None, static_perm=False, wrap_free=False):
+def compile_drv(ctx, b, out, lvl=1, opt="-O1", variant=None, static_perm=False, wrap_free=False, static_aes=False):
     cmd = ["gcc", opt, "-g", "-std=gnu11", "-DRADIX_64", "-DTARGET_AMD64", "-DTARGET_OS_UNIX", "-DNDEBUG",
            "-D%s" % vlib.GUARD]
     cmd += ["-I" + i for i in ctx.includes(lvl, "ref", variant or "sqisigndim2")]
     libs = []
     if static_perm:
         cmd += ["-DWITH_FIPS202_STATIC", '-DFIPS202_C="%s"' % os.path.join(vlib.REPO, "src/common/generic/fips202.c")]
+    elif static_aes:
+        cmd += ["-DWITH_AES_STATIC", '-DAES_C="%s"' % os.path.join(vlib.REPO, "src/common/generic/aes_c.c"), "-Wno-unused-function"]
     else:
         allv = ["libsqisign_%s_lvl%d.a" % (v, lvl) for v in VARIANTS]
         for l in ctx.libs(b, lvl, "test"):
@@ -229,6 +231,7 @@ def run(ctx):
     corr_inc(ctx, exe, quick)
     corr_drbg(ctx, exe, quick)
     corr_aes(ctx, exe, quick)
+    corr_aesct(ctx, b, quick)
     corr_mem(ctx, b, quick)
     corr_h2c(ctx, b, quick)
     return dict(level="proof", rule=RULE,
@@ -568,6 +571,60 @@ def corr_aes(ctx, exe, quick):
     dis = correspond(ctx, "AES_256_ECB vs Lean FIPS-197 specification", lines, [exe])
     if dis:
         classify(ctx, "aes", dis, oracle)
+
+
+def corr_aesct(ctx, b, quick):
+    """the generated bitsliced primitives (SqiGen.Aes, run by the Lean driver) against the static C functions they were
+    generated from (reached by #include "aes_c.c"), the hand model of aes_ecb4x against the C one on random states and
+    random expanded keys, and — the part of AES that is *not* proved — the C key schedule: its sk_exp must be, round by
+    round and in all four lanes, the bitsliced FIPS-197 round keys (hypothesis `hkeys` of theorem aes_ecb4x_eq_spec)."""
+    exe = compile_drv(ctx, b, os.path.join(ctx.tmp, "drv_aesct"), static_aes=True)
+    rng = ctx.rng.fork("aesct")
+    np = dict(sbox=8, ortho=8, shift_rows=8, mix_columns=8, add_round_key=16, interleave_in=6, interleave_out=6)
+    lines = []
+    for name, n in np.items():
+        for k in range(12 if quick else 120):
+            ws = [rng.bits(64) for _ in range(n)]
+            if k == 0:
+                ws = [0] * n
+            if k == 1:
+                ws = [2**64 - 1] * n
+            if name == "interleave_in":
+                ws = [w & 0xFFFFFFFF for w in ws[:4]] + [0, 0]
+            if name == "interleave_out":
+                ws = ws[:2] + [0, 0, 0, 0]
+            lines.append("aesct.prim %s %s" % (name, " ".join("%x" % w for w in ws)))
+            ctx.case("aesprim:%s:%d" % (name, k))
+    dis = correspond(ctx, "bitsliced AES primitives: static C functions vs generated register programs (SqiGen.Aes)", lines, [exe])
+    for d in dis[:2]:
+        ctx.violation("aesct:" + d["op"][:40], "generated AES primitive and compiled C primitive disagree (translator no longer describes the code)",
+                      dict(op=d["op"], impl=d["impl"], model=d["model"]), found=False)
+    lines = []
+    for k in range(6 if quick else 60):
+        nr = rng.choice([10, 12, 14])
+        ws = [rng.bits(32) for _ in range(16)] + [rng.bits(64) for _ in range(8 * (nr + 1))]
+        lines.append("aesct.ecb4x %x %s" % (nr, " ".join("%x" % w for w in ws)))
+        ctx.case("aesecb4x:%d:%d" % (nr, k))
+    dis = correspond(ctx, "aes_ecb4x (static C) vs hand model over the generated primitives", lines, [exe])
+    for d in dis[:2]:
+        ctx.violation("aesct:ecb4x:" + hashlib.sha1(d["op"].encode()).hexdigest()[:10], "aes_ecb4x model and C disagree",
+                      dict(op=d["op"][:3000], impl=d["impl"], model=d["model"]), found=False)
+    # key schedule (correspondence only): sk_exp of the C code unslices to the FIPS-197 round keys
+    keys = [bytes(range(32)), bytes(32), bytes([255] * 32)] + [rbytes(rng, 32) for _ in range(9 if quick else 200)]
+    klines = ["aesct.keys %s" % k.hex() for k in keys]
+    rc, cout, cerr = vlib.run_c([exe], klines)
+    mlines = ["aesct.keys %s %s" % (k.hex(), cout[i] if i < len(cout) else "") for i, k in enumerate(keys)]
+    mout = ctx.driver(mlines)
+    bad = [dict(key=keys[i].hex(), verdict=mout[i] if i < len(mout) else "<none>") for i in range(len(keys)) if i >= len(mout) or mout[i] != "ok"]
+    ctx.evaluations += len(keys)
+    for k in keys:
+        ctx.case("aeskeys:" + k[:4].hex())
+    ctx.obligation("AES-256 key schedule (C): sk_exp = bitsliced FIPS-197 round keys in all four lanes (%d keys; correspondence only)" % len(keys),
+                   not bad, json.dumps(bad[:2])[:400])
+    for d in bad[:2]:
+        ok = True
+        ctx.violation("aesct:keys:" + d["key"][:16], "the AES-256 key schedule of aes_c.c does not produce the FIPS 197 round keys",
+                      dict(key=d["key"], verdict=d["verdict"], how_to_replay="aesct.keys <key> on drv_aesct, then aesct.keys <key> <words> on the Lean driver"))
 
 
 def corr_mem(ctx, b, quick):
